@@ -128,7 +128,7 @@ def str_method(engine, s: SV, name, args, kwargs, node):
                 pv = lift(p, TStr)
                 acc = pv if acc is None else acc + s + pv
             return acc if acc is not None else lift("")
-        if isinstance(parts, SV) and parts.ty == TSeq(TStr):
+        if isinstance(parts, SV) and isinstance(parts.ty, TSeq) and parts.ty.elem == TStr:
             return str_join(engine, s, parts)
     if name == "split" and len(args) == 1:
         return str_split(engine, s, lift(args[0], TStr))
